@@ -188,15 +188,24 @@ struct ScriptDe {
     base: u32,
 }
 
+thread_local! {
+    /// which Deserializer entry point the array's Deserialize impl used last: (0 none, 1 deserialize_tuple, 2 anything else), with the length passed
+    static ENTRY: std::cell::Cell<(u8, usize)> = const { std::cell::Cell::new((0, 0)) };
+}
+
 impl<'de> Deserializer<'de> for ScriptDe {
     type Error = E;
     fn is_human_readable(&self) -> bool {
         self.s.human_readable
     }
     fn deserialize_any<V: Visitor<'de>>(self, visitor: V) -> Result<V::Value, E> {
+        if ENTRY.with(|e| e.get().0) == 0 {
+            ENTRY.with(|e| e.set((2, 0)));
+        }
         visitor.visit_seq(ScriptSeq { s: self.s, delivered: 0, hint_calls: std::cell::Cell::new(0), base: self.base })
     }
-    fn deserialize_tuple<V: Visitor<'de>>(self, _len: usize, visitor: V) -> Result<V::Value, E> {
+    fn deserialize_tuple<V: Visitor<'de>>(self, len: usize, visitor: V) -> Result<V::Value, E> {
+        ENTRY.with(|e| e.set((1, len)));
         visitor.visit_seq(ScriptSeq { s: self.s, delivered: 0, hint_calls: std::cell::Cell::new(0), base: self.base })
     }
     serde::forward_to_deserialize_any! {
@@ -392,6 +401,7 @@ fn exec_n<N: ArrayLength>(case: &Case, acc: &mut Acc) -> Result<(), String> {
             acc.class("bincode_truncated");
         }
         Op::Script(s) => {
+            ENTRY.with(|e| e.set((0, 0)));
             let r = engine::catch(|| {
                 if s.in_place {
                     // the array to be overwritten holds N elements of its own; they must be dropped exactly once too
@@ -405,6 +415,11 @@ fn exec_n<N: ArrayLength>(case: &Case, acc: &mut Acc) -> Result<(), String> {
                 Ok(r) => r,
                 Err(c) => return Err(format!("deserialisation panicked instead of returning a result: {}", c.msg)),
             };
+            // a fixed-size tuple: a format that is not self-describing can only hand it out through deserialize_tuple(N)
+            let entry = ENTRY.with(|e| e.get());
+            if entry != (1, n) {
+                return Err(format!("the array asked the deserializer for {} instead of deserialize_tuple({n})", if entry.0 == 1 { format!("deserialize_tuple({})", entry.1) } else { "another kind of value (not a tuple)".into() }));
+            }
             let hint_ok = s.upfront.is_none() || s.upfront == Some(n);
             let expect_ok = hint_ok && s.c == n && s.err_at.map(|e| e >= n).unwrap_or(true);
             match r {
